@@ -135,6 +135,13 @@ func cmdCheck(args []string) int {
 		addFn(k, true)
 	}
 	sort.Slice(targets, func(i, j int) bool { return fnKey(targets[i].fn) < fnKey(targets[j].fn) })
+	var base Baseline
+	basePath := filepath.Join("/verif/baseline", *prop+".json")
+	haveBase := loadJSON(basePath, &base) == nil
+	inBase := map[string]bool{}
+	for _, id := range base.Obligations {
+		inBase[id] = true
+	}
 	// verify (symbolic execution is sequential per function; solving is parallel)
 	results := make([]*FnResult, len(targets))
 	var wg sync.WaitGroup
@@ -149,7 +156,22 @@ func cmdCheck(args []string) int {
 			r := p.VerifyFn(t.fn, VerifyOpts{Sweep: t.sweep})
 			mu.Unlock()
 			<-sem
-			solveAll(r, timeout)
+			solveAll(r, timeout, 2*time.Second)
+			// anti-flake: a failure of anything that passed on the pinned tree is re-examined
+			// from scratch (candidate invariants included) with generous time limits
+			retry := false
+			for _, o := range r.Obls {
+				if o.candID < 0 && o.Kind != "vacuity" && o.Result.Verdict != "unsat" && (inBase[o.ID] || o.Level == "aux") {
+					retry = true
+				}
+			}
+			if retry {
+				for _, cd := range r.Cands {
+					cd.active = true
+				}
+				solveAll(r, 60*time.Second, 10*time.Second)
+				r.Retried = true
+			}
 			r.sweep = t.sweep
 			results[i] = r
 		}(i, t)
@@ -157,13 +179,6 @@ func cmdCheck(args []string) int {
 	wg.Wait()
 
 	// classification
-	var base Baseline
-	basePath := filepath.Join("/verif/baseline", *prop+".json")
-	haveBase := loadJSON(basePath, &base) == nil
-	inBase := map[string]bool{}
-	for _, id := range base.Obligations {
-		inBase[id] = true
-	}
 	var findings []Finding
 	loadJSON("/verif/known_findings.json", &findings)
 	known := map[string]Finding{}
@@ -252,14 +267,6 @@ func cmdCheck(args []string) int {
 			}
 			st.N++
 			st.Secs += o.Result.Secs
-		}
-	}
-	// retry baseline failures with the long timeout before reporting
-	for i := range rows {
-		rw := &rows[i]
-		if !rw.ok && inBase[rw.o.ID] && rw.o.Result.Verdict != "sat" && timeout < 60*time.Second {
-			rw.o.Result = Solve(rw.o.script, 60*time.Second)
-			rw.ok = rw.o.Result.Verdict == "unsat"
 		}
 	}
 	nProp, nDis := 0, 0
